@@ -526,3 +526,42 @@ func (s *ledgerSim) hoursMonotone(n *node) {
 	s.lastHours = cur
 	s.lastHoursAt = headTime
 }
+
+// expectedCoins: confirmed and predicted coins of the addresses in state m (predicted = confirmed - what pooled
+// transactions spend + what they pay).  ok is false when the pool holds a transaction whose inputs are gone (the
+// node may then refuse the query) or a sum leaves 64 bits.
+func expectedCoins(m *model.Ledger, addrs []model.Addr) (conf, pred []*big.Int, ok bool) {
+	spentByPool := map[model.Hash]bool{}
+	for _, e := range m.Pool {
+		for _, in := range e.Txn.In {
+			if _, has := m.Unspent[in]; !has {
+				return nil, nil, false
+			}
+			spentByPool[in] = true
+		}
+	}
+	for _, a := range addrs {
+		cf, pr := new(big.Int), new(big.Int)
+		for id, u := range m.Unspent {
+			if u.Addr != a {
+				continue
+			}
+			cf.Add(cf, bigU(u.Coins))
+			if !spentByPool[id] {
+				pr.Add(pr, bigU(u.Coins))
+			}
+		}
+		for _, e := range m.Pool {
+			for _, o := range e.Txn.Out {
+				if o.Addr == a {
+					pr.Add(pr, bigU(o.Coins))
+				}
+			}
+		}
+		if cf.BitLen() > 64 || pr.BitLen() > 64 {
+			return nil, nil, false
+		}
+		conf, pred = append(conf, cf), append(pred, pr)
+	}
+	return conf, pred, true
+}
